@@ -17,7 +17,7 @@ HDR = "x-goog-request-params"
 PROFILE = grammar.profile(
     p_routing=0.55, p_http=0.85, p_get=0.9, p_list=0.6, p_update=0.6, p_delete=0.6, p_custom=0.7, p_create=0.5,
     p_sstream=0.35, p_cstream=0.0, p_bidi=0.0, p_lro=0.4, p_raw_op=0.1, p_service_config=0.8, p_yaml=0.05,
-    transports=["grpc", "grpc+rest", "grpc+rest"], p_additional_binding=0.4, p_multi_var_path=0.4, p_reserved_path_var=0.5)
+    transports=["grpc", "grpc+rest", "grpc+rest"], p_additional_binding=0.4, p_multi_var_path=0.4, p_reserved_path_var=0.5, p_custom_http_pattern=0.3)
 
 BUDGET = {
     "quick": {"worlds": 150, "runs": 80, "wall_cap": 300, "world_wall": 90},
@@ -26,7 +26,7 @@ BUDGET = {
 REQUIRED_PROBES = ["explicit_rule", "implicit_rule", "no_header_expected", "override_same_key", "nested_field",
                    "value_needs_escaping", "non_matching_value", "empty_value", "header_on_retry_attempt",
                    "header_on_later_page", "async_header", "extra_trailing_segments", "no_template_param", "rest_header", "rest_header_on_later_page", "header_on_lro",
-                   "header_on_sstream"]
+                   "header_on_sstream", "shared_metadata_list_later_call", "custom_http_pattern"]
 SEGS = ["p1", "my-proj", "a b", "é", "x%y", "k=v&z", "seg.1", "~t", "q+r", "UPPER"]
 
 
@@ -205,10 +205,14 @@ def gen_scenarios(spec, rng, n):
         actors = [{"start": 0.0, "ops": []} for _ in range(nact)]
         for j in range(rng.randint(1, 3)):
             fs, s, m, cls = rng.choice(cands)
-            if client == "rest" and not m.get("http"):
+            if client == "rest" and (not m.get("http") or m["http"]["verb"] == "custom"):
                 continue
             actors[j % nact]["ops"].append(gen_op(spec, rng, codec, fs, s, m, cls, f"o{j}", client))
         actors = [a for a in actors if a["ops"]]
+        if actors and sum(len(a["ops"]) for a in actors) >= 2 and rng.random() < 0.3:
+            for a in actors:
+                for op in a["ops"]:
+                    op["call"] = dict(op.get("call") or {}, metadata=[["x-caller-tag", "shared"]], metadata_shared="m1")
         if actors:
             out.append({"client": client, "actors": actors, "jitter_default": 0.0})
     return out
@@ -348,6 +352,8 @@ def judge(spec, scenario, history):
                 _bump(probes, "override_same_key")
         elif m.get("http"):
             _bump(probes, "implicit_rule")
+            if m["http"]["verb"] == "custom":
+                _bump(probes, "custom_http_pattern")
         if not want:
             _bump(probes, "no_header_expected")
         for f, mode in (op.get("modes") or {}).items():
@@ -368,6 +374,11 @@ def judge(spec, scenario, history):
         first_attempt.setdefault(e["op"], e)
         if op["kind"] in ("lro", "sstream"):
             _bump(probes, "header_on_" + op["kind"])
+        if (op.get("call") or {}).get("metadata_shared") and e["op"] != next(iter(ops)):
+            _bump(probes, "shared_metadata_list_later_call")
+            tags = [v for k, v in e["md"] if k.lower() == "x-caller-tag"]
+            if tags != ["shared"]:
+                return V("caller_metadata", f"caller metadata x-caller-tag arrived as {tags}; the caller passed it once")
         if scenario["client"] == "async":
             _bump(probes, "async_header")
         if e.get("tr") == "rest":
